@@ -6,8 +6,10 @@
 // quota files contributing system flows, and runs transactions through Stream.ExecuteFlow.
 //
 // Observables per op line:
-//   load  -> `accept <canonical dump of every built flow direction>` | `reject[:<class>]`
-//   txn   -> `<ok|err:class|...> ev=<flow-entered / processor-executed events> acts=<early-response actions>`
+//
+//	load  -> `accept <canonical dump of every built flow direction>` | `reject[:<class>]`
+//	txn   -> `<ok|err:class|...> ev=<flow-entered / processor-executed events> acts=<early-response actions>`
+//
 // Events are recorded by the probes themselves (P:flow:key:dir:out) and by a wrapper around the
 // APIStream that logs every SetContext call of executeFlow (F:flow:dir).
 package main
